@@ -410,6 +410,11 @@ def providers(run, M, pid, tier):
     the operator classes and their algebra) are reachable from this property's anchor files, that property's rules are evaluated as part of
     this check (each once).  A change to shared machinery is then reported by every property it can affect, not only by the one it is filed under."""
     import importlib
+    import os
+    if os.environ.get("SIGVERIF_NO_INHERIT"):
+        # developer switch for regression tools that run all 20 checks on one tree anyway: every rule then runs once instead of many times
+        run.extra["inherited_checks"] = "disabled by SIGVERIF_NO_INHERIT"
+        return
     seen = _LAST_SEEN.get(id(M), set())
     ran = []
     for q, cores, marker in PROVIDERS:
